@@ -25,6 +25,7 @@ ELSEWHERE = [
  (r'^monitor:\(\*protocol/xpush\.socket\)\.SetOption:unlock:s\.Mutex:socket\.inv1#4$', 'C02', 'recorded as a known finding under C02 (PUSH accepts WriteQLen 0); not reported a second time here'),
  (r'^lock\.block:\(\*protocol/sub\.context\)\.(unsubscribe:block:send:c\.recvQ|SetOption:block:call:unsubscribe)$', 'C11', 'non-blocking only by a count argument over channel contents, which the channel model cannot express (listed with this reason under C11)'),
  (r'^lock\.block:\(\*protocol/xpush\.socket\)\.sender:block:recv:s\.sendQ$', 'C11', 'receive under the lock guarded by len(sendQ) != 0: needs channel-content reasoning (listed with this reason under C11)'),
+ (r'^post:\(\*protocol/xrep\.socket\)\.SendMsg:post5@return#5$', 'C05,C09', 'recorded as a known finding under C05 and C09 (raw REP Send reports the socket closed when only the destination connection has gone); not reported a second time here'),
  (r'^site:\(\*protocol/xbus\.pipe\)\.receiver:at:call:Close#1:1$', 'C08,C19', 'recorded as a known finding under C08 and C19 (raw BUS receiver leaves its loop on a queue resize); not reported a second time here'),
 ]
 SUBSTRATE = re.compile(r'^(message\.go|device\.go|protocol\.go|pipe\.go|options\.go|internal/core/[a-z]+\.go|transport/[a-z_]+\.go|transport/(tcp|ipc|tlstcp|ws|wss|inproc)/[a-z_]+\.go|protocol/protocol\.go)$')
